@@ -16,7 +16,7 @@ def gen(rng, i):
         cfg = pl.UNIFORM[rng.choice(["a8w8", "a8sw8t", "a16w8"])]
         cmds = [{"k": "add", "regex": ".*", "operation": "*", "cfg": cfg, "alg": "min_max_uniform_quantize"}]
         return fp.Case(mb, info, cmds=cmds, data=data, desc=[("tied", cfg["act"]["bits"], cfg["weight"]["bits"])])
-    mb, info = gm.gen_model(rng, n_ops=rng.randint(1, 4), n_subgraphs=1, p_unsupported=0.1,
+    mb, info = gm.gen_model(rng, n_ops=rng.randint(1, 4), n_subgraphs=1, p_unsupported=0.1, alias_sig=0.0,
                              const_kinds=gm.BENIGN_KINDS if i % 6 else None)
     data = gm.random_inputs(mb, rng, n=1, scale=1.0)
     cfg = pl.UNIFORM[rng.choice(["a8w8", "a8w8", "a8sw8t", "a16w8", "a8w4", "a16w4", "a8sw4t"])]
